@@ -15,7 +15,6 @@ import (
 	"net/http"
 	"net/http/httptest"
 	"os"
-	"runtime"
 	"runtime/debug"
 	"sort"
 	"strings"
@@ -430,14 +429,13 @@ func (r *vbResult) add(f vbFinding) {
 // vbRunInput executes all entry points on b inside one vsched execution.
 func vbRunInput(res *vbResult, eps []vbEP, b []byte, only map[string]bool) {
 	res.Inputs++
-	if res.Inputs%8 == 0 {
-		var ms runtime.MemStats
-		runtime.ReadMemStats(&ms)
-		if ms.HeapAlloc > 1<<30 {
-			// the collector is off (see vbMain); collect by hand once the garbage of the executions
-			// so far passes 1 GiB, so that 16 shards fit into memory side by side
-			debug.FreeOSMemory()
-		}
+	if res.Mode == "strings" && res.Inputs%512 == 0 {
+		// the collector is off (see vbMain); in the mode with thousands of small inputs per shard collect
+		// by hand every 512 inputs so that the garbage of the executions so far (about 2 MB each) stays
+		// around 1 GiB and 16 shards fit side by side. The template mode has few inputs per shard and
+		// declared sizes of up to 2 GiB: there a collection makes the runtime recycle (and clear) those
+		// buffers, which is what switching the collector off avoids.
+		debug.FreeOSMemory()
 	}
 	if len(b) >= 5 {
 		res.Nontrivial++
